@@ -84,6 +84,21 @@ def r1_confinement(program, rep, inline):
         off0 = Poly.atom("self._offset@0")
         it = Interp(meth, entry_cons=[le(S, E)] + eq(OFF, off0),
                     inline_props=props, inline_methods=meths)
+        # the same method on the two halves of its inputs (position inside /
+        # before the view): a bound that follows from a test of the position
+        # survives the merge of the test's branches
+        halves = [Interp(meth, entry_cons=[le(S, E)] + eq(OFF, off0) + [c_],
+                         inline_props=props, inline_methods=meths)
+                  for c_ in (le(0, off0), lt(off0, 0))]
+
+        class _Both(object):
+            def holds_at(self, node_, cons):
+                if it.holds_at(node_, cons):
+                    return True
+                return all((not h.reachable(h.cfg.nodes[node_.id])) or
+                           h.holds_at(h.cfg.nodes[node_.id], cons)
+                           for h in halves)
+        both = _Both()
         for call in sites:
             n_sites += 1
             node = it.cfg.node_containing(call)
@@ -101,20 +116,20 @@ def r1_confinement(program, rep, inline):
             what = "%s(%s, %s)" % (kind, unparse(call.args[0]),
                                    unparse(call.args[1]))
             st = it.describe(node)
-            rep.check(it.holds_at(node, [le(S, addr)]), "C13-R1", inst,
+            rep.check(both.holds_at(node, [le(S, addr)]), "C13-R1", inst,
                       "%s: address %r >= _start_address" % (what, addr),
                       construct="%s lower bound" % kind, node=call,
                       fail="%s may access below the view: cannot show "
                            "_start_address <= %r; state: %s" % (what, addr,
                                                                  st))
-            rep.check(it.holds_at(node, [le(addr + n, E)]), "C13-R1", inst,
+            rep.check(both.holds_at(node, [le(addr + n, E)]), "C13-R1", inst,
                       "%s: address + count %r <= _end_address" % (
                           what, addr + n),
                       construct="%s upper bound" % kind, node=call,
                       fail="%s may access beyond the view: cannot show "
                            "%r <= _end_address; state: %s" % (what, addr + n,
                                                                st))
-            rep.check(it.holds_at(node, [le(1, n)]), "C13-R1", inst,
+            rep.check(both.holds_at(node, [le(1, n)]), "C13-R1", inst,
                       "%s: count %r >= 1 (no empty/negative transfer reaches "
                       "the controller)" % (what, n),
                       construct="%s positive count" % kind, node=call,
@@ -176,6 +191,10 @@ def r2_slices(program, rep, inline):
     params = [a.arg for a in fn.args.args]
     if len(params) != 2:
         raise AnalysisError("__getitem__ signature changed")
+    if any(getattr(h, "_virtual", False) for h in ast.walk(fn)):
+        raise AnalysisError("__getitem__ computes the bounds of the new view "
+                            "in helper methods the reference tree did not "
+                            "have: the interpreter does not follow them")
     sl = params[1]
     ctor = calls_in(fn, "SlicedMemoryIO")
     if len(ctor) != 1:
